@@ -29,14 +29,14 @@ EXPLANATION = ('OPERAND rules (NF of the four uses of `amount`), DRUM/COUNT/TOTA
 TRUSTED = ['protobuf copy semantics', 'semitone distances between natural letters (oracle)']
 NOT_DECIDED = ['that transposing arbitrary chord spellings is a homomorphism on pitch-class sets (values)']
 ASSUMPTIONS = []
-FLOORS = {'OPERAND': 4, 'DRUM': 3, 'FRAME': 1, 'TAB': 7, 'PASS': 4, 'SEQ': 6, 'OWN': 10}
+FLOORS = {'OPERAND': 4, 'DRUM': 3, 'FRAME': 1, 'TAB': 7, 'PASS': 8, 'SEQ': 6, 'OWN': 10}
 
 ORACLE_MIDI = {'C': 0, 'D': 2, 'E': 4, 'F': 5, 'G': 7, 'A': 9, 'B': 11}
 LETTERS = 'CDEFGAB'
 
 
 def E(t):
-  return ast.parse(t, mode='eval').body
+  return U.E(t)
 
 
 def run(ctx):
@@ -271,6 +271,49 @@ def passthrough(ctx):
   ctx.ob('PASS/bass', fi, ret, okb, 'the last part is "/"+transposed bass, or the original (empty) bass string' if okb else
          'the bass part is not "/" + transposed bass when a bass exists and the original string otherwise', construct='part 3 = "/" + transposed bass | bass_str')
 
+  # def-use chain: (step, alteration) pairs travel together from the parser through the transposition to the printer
+  defs = {}
+  for st in U.walk_stmts(fn):
+    for tgt, _v, _o in U.store_targets(st):
+      if isinstance(tgt, ast.Name):
+        defs.setdefault(tgt.id, []).append(st)
+
+  def pair_source(call, n):
+    """The value whose 2-tuple unpacking defines the first n(=2) arguments of call, in order; None otherwise."""
+    if len(call.args) < 2 or not all(isinstance(a, ast.Name) for a in call.args[:2]):
+      return None
+    x, y = call.args[0].id, call.args[1].id
+    if len(defs.get(x, [])) != 1 or len(defs.get(y, [])) != 1 or defs[x][0] is not defs[y][0]:
+      return None
+    st = defs[x][0]
+    if not (isinstance(st, ast.Assign) and len(st.targets) == 1 and isinstance(st.targets[0], ast.Tuple) and [norm_text(e) for e in st.targets[0].elts] == [x, y]):
+      return None
+    return st.value
+
+  def resolve(v):
+    while isinstance(v, ast.Name) and len(defs.get(v.id, [])) == 1 and isinstance(defs[v.id][0], ast.Assign) and isinstance(defs[v.id][0].targets[0], ast.Name):
+      v = defs[v.id][0].value
+    return v
+
+  pcalls = [c for c in U.calls_in(fn) if dotted(c.func) == '_pitch_class_to_string']
+  ctx.require(len(tcalls) == 2 and len(pcalls) == 2, 'transpose_chord_symbol: expected two _transpose_pitch_class and two _pitch_class_to_string calls')
+  seen_src = []
+  for c in tcalls:
+    src = pair_source(c, 2)
+    src = resolve(src) if src is not None else None
+    which = dotted(src.func) if isinstance(src, ast.Call) else None
+    ok = which in ('_parse_root', '_parse_bass') and which not in seen_src
+    seen_src.append(which)
+    ctx.ob('PASS/pitch-chain', fi, c, ok, 'step and alteration both come from one %s(...) result' % which if ok else
+           'the step and alteration passed to _transpose_pitch_class do not come from one parsed (step, alteration) pair: %s' % norm_text(c),
+           construct='transposed pair %d <- one parsed pair' % (len(seen_src)))
+  for i, c in enumerate(pcalls):
+    src = pair_source(c, 2)
+    ok = isinstance(src, ast.Call) and src in tcalls
+    ctx.ob('PASS/pitch-chain', fi, c, ok, 'the printed step and alteration are one transposition result' if ok else
+           'the step and alteration printed by _pitch_class_to_string do not come from one _transpose_pitch_class result: %s' % norm_text(c),
+           construct='printed pair %d <- one transposed pair' % (i + 1))
+
 
 def sequences(ctx):
   fd = fold.Folder(ctx.P, ctx.S)
@@ -346,6 +389,9 @@ def sequences(ctx):
 
 
 MUTANTS = [
+    Mutant('seed C10_a: bass transposed with the root alteration', CS, '        bass_step, bass_alter, transpose_amount)', '        bass_step, root_alter, transpose_amount)', rule='PASS/pitch-chain'),
+    Mutant('bass printed with the transposed root alteration', CS, '        transposed_bass_step, transposed_bass_alter)', '        transposed_bass_step, transposed_root_alter)', rule='PASS/pitch-chain'),
+    Mutant('step and alteration swapped into the printer', CS, '      transposed_root_step, transposed_root_alter)\n', '      transposed_root_alter, transposed_root_step)\n', rule='PASS/pitch-chain'),
     Mutant('key modulo 11', F, '    ks.key = (ks.key + amount) % 12', '    ks.key = (ks.key + amount) % 11', rule='OPERAND/key'),
     Mutant('key moves the other way', F, '    ks.key = (ks.key + amount) % 12', '    ks.key = (ks.key - amount) % 12', rule='OPERAND/key'),
     Mutant('chords transposed by -amount', F, 'ta.text = chord_symbols_lib.transpose_chord_symbol(ta.text, amount)', 'ta.text = chord_symbols_lib.transpose_chord_symbol(ta.text, -amount)', rule='OPERAND/chord'),
